@@ -1,6 +1,367 @@
+import RtcVerif.Model.C04Goals
 import RtcVerif.Model.C04Store
+import RtcVerif.Proofs.C04Validate
+import RtcVerif.Proofs.C04Store
+import RtcVerif.Proofs.C04Rows
+import Mathlib.Algebra.Order.Field.Basic
 import Mathlib.Tactic.Linarith
-/-! placeholder while the harness is brought up -/
+import Mathlib.Tactic.Ring
+import Mathlib.Tactic.NormNum
+/-!
+# C04 — target goals stay inside their epsilon envelope; critical goals are hard; ill-formed
+goals are rejected before any solve
+
+Model: `Model/C04Goals.lean` (goals, validation, soft rows), `Model/C04Store.lean` (store).
+Helper lemmas: `Proofs/C04Validate.lean`, `Proofs/C04Store.lean`.
+-/
 namespace RtcVerif.C04
-theorem placeholder : (1 : Nat) = 1 := rfl
+open RtcVerif
+
+/-! ## envelope -/
+
+/-- **Envelope.**  For a positive nominal, wherever the lower soft row `≥ 0` and the upper soft
+    row `≤ 0` hold (the constraints the solver is given), the goal function lies in
+    `[m_t + ε(m - m_t), M_t + ε(M - M_t)]`.  (`0 ≤ ε ≤ 1` are the variable's bounds `epsBounds`;
+    they are needed only for the corollary `C04_within_range`.) -/
+theorem C04_envelope (tm tM f eps lo hi nom : Rat) (hnom : 0 < nom)
+    (hm : qabs tm < floatMax) (hM : qabs tM < floatMax)
+    (hlow : 0 ≤ softRow (XVal.e (EVal.fin tm)) f eps lo nom)
+    (hup : softRow (XVal.e (EVal.fin tM)) f eps hi nom ≤ 0) :
+    tm + eps * (lo - tm) ≤ f ∧ f ≤ tM + eps * (hi - tM) := by
+  rw [softRow_active _ _ _ _ _ hm] at hlow
+  rw [softRow_active _ _ _ _ _ hM] at hup
+  have h1 : 0 ≤ f - eps * (lo - tm) - tm := by
+    have := mul_nonneg hlow (le_of_lt hnom)
+    rwa [div_mul_cancel₀ _ (ne_of_gt hnom)] at this
+  have h2 : f - eps * (hi - tM) - tM ≤ 0 := by
+    have := mul_nonpos_of_nonpos_of_nonneg hup (le_of_lt hnom)
+    rwa [div_mul_cancel₀ _ (ne_of_gt hnom)] at this
+  constructor <;> linarith
+
+/-- `ε = 0` means the target is met. -/
+theorem C04_eps_zero_target_met (tm tM f lo hi nom : Rat) (hnom : 0 < nom)
+    (hm : qabs tm < floatMax) (hM : qabs tM < floatMax)
+    (hlow : 0 ≤ softRow (XVal.e (EVal.fin tm)) f 0 lo nom)
+    (hup : softRow (XVal.e (EVal.fin tM)) f 0 hi nom ≤ 0) : tm ≤ f ∧ f ≤ tM := by
+  have := C04_envelope tm tM f 0 lo hi nom hnom hm hM hlow hup
+  simpa using this
+
+/-- with validated targets (`m ≤ m_t`, `M_t ≤ M`) and `0 ≤ ε ≤ 1` the function never leaves its
+    declared range (only `ε ≤ 1` is needed). -/
+theorem C04_within_range (tm tM f eps lo hi nom : Rat) (hnom : 0 < nom)
+    (hm : qabs tm < floatMax) (hM : qabs tM < floatMax) (he1 : eps ≤ 1)
+    (hlo : lo ≤ tm) (hhi : tM ≤ hi)
+    (hlow : 0 ≤ softRow (XVal.e (EVal.fin tm)) f eps lo nom)
+    (hup : softRow (XVal.e (EVal.fin tM)) f eps hi nom ≤ 0) : lo ≤ f ∧ f ≤ hi := by
+  obtain ⟨h1, h2⟩ := C04_envelope tm tM f eps lo hi nom hnom hm hM hlow hup
+  constructor
+  · nlinarith
+  · nlinarith
+
+example : 0 ≤ softRow (XVal.e (EVal.fin 2)) 1 (1/2) (-10) 2
+    ∧ softRow (XVal.e (EVal.fin 5)) 1 (1/2) 10 2 ≤ 0 := by
+  simp only [softRow, qabs, floatMax]; norm_num
+
+/-! ### the rows of a (vector) goal, component-wise -/
+
+/-- **Envelope for the rows the model hands to the solver, component-wise (vector goals).**
+    If every row of `softRows g n fs eps` is within its bounds, then for every component `c` and
+    step `i` with a finite lower (upper) target the envelope inequality holds. -/
+theorem C04_envelope_rows (g : Goal) (n : Nat) (fs eps : List (List Rat))
+    (hrows : ∀ r ∈ softRows g n fs eps, r.lb ≤ EVal.fin r.val ∧ EVal.fin r.val ≤ r.ub)
+    (c i : Nat) (hc : c < g.size) (hi : i < n) (hnom : 0 < g.nomAt c) :
+    (∀ tm lo, g.hasMin = true → g.mAt c i = XVal.e (EVal.fin tm) → qabs tm < floatMax →
+        g.loAt c = XVal.e (EVal.fin lo) → tm + getF eps c i * (lo - tm) ≤ getF fs c i) ∧
+    (∀ tM hi', g.hasMax = true → g.MAt c i = XVal.e (EVal.fin tM) → qabs tM < floatMax →
+        g.hiAt c = XVal.e (EVal.fin hi') → getF fs c i ≤ tM + getF eps c i * (hi' - tM)) := by
+  constructor
+  · intro tm lo hmin htm habs hlo
+    have hk := keepMin_of_finite g n c i hi tm htm
+    have hany : (List.range g.size).any (g.keepMin n) = true :=
+      List.any_eq_true.2 ⟨c, List.mem_range.2 hc, hk⟩
+    have hmem : (⟨softRow (g.minSym c i) (getF fs c i) (getF eps c i) lo (g.nomAt c), .fin 0, .pinf⟩ : Row)
+        ∈ softRows g n fs eps := by
+      simp only [softRows, hmin, hany, Bool.and_self, if_true, List.mem_append, List.mem_flatMap,
+        List.mem_filter, List.mem_range, List.mem_map]
+      left
+      exact ⟨c, ⟨hc, hk⟩, i, hi, by simp [hlo]⟩
+    have h0 := (hrows _ hmem).1
+    simp only [Goal.minSym, htm, sentinelMin_fin] at h0
+    have h0' : 0 ≤ softRow (XVal.e (EVal.fin tm)) (getF fs c i) (getF eps c i) lo (g.nomAt c) :=
+      (EVal.le_fin_fin _ _).1 h0
+    rw [softRow_active _ _ _ _ _ habs] at h0'
+    have := mul_nonneg h0' (le_of_lt hnom)
+    rw [div_mul_cancel₀ _ (ne_of_gt hnom)] at this
+    linarith
+  · intro tM hi' hmax htM habs hhi
+    have hk := keepMax_of_finite g n c i hi tM htM
+    have hany : (List.range g.size).any (g.keepMax n) = true :=
+      List.any_eq_true.2 ⟨c, List.mem_range.2 hc, hk⟩
+    have hmem : (⟨softRow (g.maxSym c i) (getF fs c i) (getF eps c i) hi' (g.nomAt c), .ninf, .fin 0⟩ : Row)
+        ∈ softRows g n fs eps := by
+      simp only [softRows, hmax, hany, Bool.and_self, if_true, List.mem_append, List.mem_flatMap,
+        List.mem_filter, List.mem_range, List.mem_map]
+      right
+      exact ⟨c, ⟨hc, hk⟩, i, hi, by simp [hhi]⟩
+    have h0 := (hrows _ hmem).2
+    simp only [Goal.maxSym, htM, sentinelMax_fin] at h0
+    have h0' : softRow (XVal.e (EVal.fin tM)) (getF fs c i) (getF eps c i) hi' (g.nomAt c) ≤ 0 :=
+      (EVal.le_fin_fin _ _).1 h0
+    rw [softRow_active _ _ _ _ _ habs] at h0'
+    have := mul_nonpos_of_nonpos_of_nonneg h0' (le_of_lt hnom)
+    rw [div_mul_cancel₀ _ (ne_of_gt hnom)] at this
+    linarith
+
+/-! ## inactive steps -/
+
+/-- **A step whose target is NaN or ±inf imposes nothing**: with the `∓float_max` sentinel the
+    code substitutes (arrays, Timeseries) or without it (scalars) the soft row is the constant `0`,
+    whatever the goal function and the violation variable are — and `0` satisfies both row bounds
+    `[0, inf)` and `(-inf, 0]`. -/
+theorem C04_inactive_steps_free (isArr : Bool) (v : XVal) (hv : v.isFinite = false)
+    (f eps b nom : Rat) :
+    softRow (sentinelMin isArr v) f eps b nom = 0 ∧ softRow (sentinelMax isArr v) f eps b nom = 0 := by
+  have hq : ¬ qabs (-floatMax) < floatMax := by simp only [qabs, floatMax]; norm_num
+  have hq' : ¬ qabs floatMax < floatMax := by simp only [qabs, floatMax]; norm_num
+  cases v with
+  | nan => cases isArr <;> simp [sentinelMin, sentinelMax, softRow, XVal.fin, hq, hq']
+  | e x =>
+    cases x with
+    | fin q => simp [XVal.isFinite] at hv
+    | ninf =>
+      cases isArr <;> simp [sentinelMin, sentinelMax, softRow, XVal.fin, XVal.ninf, hq]
+    | pinf =>
+      cases isArr <;> simp [sentinelMin, sentinelMax, softRow, XVal.fin, XVal.pinf, hq']
+
+/-- the components a vector goal drops from its lower (upper) constraint have no finite target at
+    any step: nothing but constant-zero rows is removed -/
+theorem C04_dropped_components_inactive (g : Goal) (n c : Nat) :
+    (g.keepMin n c = false → ∀ i < n, (g.mAt c i).isFinite = false) ∧
+    (g.keepMax n c = false → ∀ i < n, (g.MAt c i).isFinite = false) := by
+  constructor
+  · intro hk i hi
+    cases hf : (g.mAt c i).isFinite with
+    | false => rfl
+    | true =>
+      obtain ⟨q, hq⟩ := (isFinite_iff _).1 hf
+      rw [keepMin_of_finite g n c i hi q hq] at hk
+      cases hk
+  · intro hk i hi
+    cases hf : (g.MAt c i).isFinite with
+    | false => rfl
+    | true =>
+      obtain ⟨q, hq⟩ := (isFinite_iff _).1 hf
+      rw [keepMax_of_finite g n c i hi q hq] at hk
+      cases hk
+
+example : softRow (sentinelMin true .nan) 123 (1/3) (-10) 2 = 0 := by
+  simp only [sentinelMin, softRow, XVal.fin, qabs, floatMax]; norm_num
+
+/-! ## validation -/
+
+/-- **`validate = ok ↔ WellFormed`**: the validation accepts a goal list exactly when every goal
+    satisfies the documented conditions (`GoalDefOK`, `GoalTargetsOK`) and — with
+    `check_monotonicity` — the targets of every function key are monotone in priority order
+    (`MonoChain` over the stable priority sort). -/
+theorem C04_validate_sound_complete (o : Opts) (isPath : Bool) (nTimes : Nat) (goals : List Goal)
+    (hshape : ∀ g ∈ goals, g.ShapeOK) :
+    validate o isPath nTimes goals = none ↔ WellFormed o isPath nTimes goals := by
+  simp only [validate, firstErr_none, List.mem_cons, List.not_mem_nil, or_false, forall_eq_or_imp,
+    forall_eq, firstOf_none, mem_sortByPriority]
+  have hfin : ∀ g ∈ goals, GoalDefOK o isPath g →
+      (g.critical = false → g.hasTargetBounds = true →
+        ∀ c < g.size, (g.loAt c).isFinite = true ∧ (g.hiAt c).isFinite = true) := by
+    intro g hg hd hc ht c hcs
+    obtain ⟨f1, f2⟩ := hd.range_finite hc ht
+    exact ⟨f1 _ (getB_mem g.rangeLo c .nan g.size hcs (hshape g hg).rangeLo_len),
+      f2 _ (getB_mem g.rangeHi c .nan g.size hcs (hshape g hg).rangeHi_len)⟩
+  constructor
+  · rintro ⟨h1, h2, h3⟩
+    have hd : ∀ g ∈ goals, GoalDefOK o isPath g :=
+      fun g hg => (checkDef_none o isPath g (hshape g hg)).1 (h1 g hg)
+    refine ⟨hd, ?_, ?_⟩
+    · intro hm
+      rw [if_pos hm] at h2
+      exact (monoWalk_none_iff_chain _ _).1 h2
+    · intro g hg
+      exact (checkTargets_none _ g (hfin g hg (hd g hg))).1 (h3 g hg)
+  · intro h
+    refine ⟨?_, ?_, ?_⟩
+    · intro g hg
+      exact (checkDef_none o isPath g (hshape g hg)).2 (h.defs g hg)
+    · by_cases hm : o.checkMonotonicity = true
+      · rw [if_pos hm]
+        exact (monoWalk_none_iff_chain _ _).2 (h.mono hm)
+      · rw [if_neg hm]
+    · intro g hg
+      exact (checkTargets_none _ g (hfin g hg (h.defs g hg))).2 (h.targets g hg)
+
+/-- both validation calls of `optimize()` -/
+theorem C04_validateAll_sound_complete (o : Opts) (nTimes : Nat) (goals pathGoals : List Goal)
+    (hs1 : ∀ g ∈ goals, g.ShapeOK) (hs2 : ∀ g ∈ pathGoals, g.ShapeOK) :
+    validateAll o nTimes goals pathGoals = none ↔
+      WellFormed o false nTimes goals ∧ WellFormed o true nTimes pathGoals := by
+  simp only [validateAll, firstErr_none, List.mem_cons, List.not_mem_nil, or_false, forall_eq_or_imp,
+    forall_eq]
+  rw [C04_validate_sound_complete o false nTimes goals hs1,
+    C04_validate_sound_complete o true nTimes pathGoals hs2]
+
+/-- the walk order of the validation is a stable-insertion sort by priority -/
+theorem C04_validation_order (goals : List Goal) :
+    (sortByPriority goals).Perm goals ∧
+      (sortByPriority goals).Pairwise (fun a b => a.priority ≤ b.priority) :=
+  ⟨sortByPriority_perm goals, sortByPriority_sorted goals⟩
+
+/-- **Ill-formed goals are rejected before any solve**: when the validation fails, `optimize()`
+    ends with that exception whatever the priority loop would have done — no event of the loop
+    (no `started`, no `solve`) happens. -/
+theorem rejected_before_any_solve (o : Opts) (nTimes : Nat) (goals pathGoals : List Goal)
+    (loop : Unit → List Event × Bool) (e : Err)
+    (h : validateAll o nTimes goals pathGoals = some e) :
+    optimize o nTimes goals pathGoals loop = .error e := by
+  simp [optimize, h]
+
+/-- conversely the loop runs exactly when the validation passes -/
+theorem accepted_iff_loop_runs (o : Opts) (nTimes : Nat) (goals pathGoals : List Goal)
+    (loop : Unit → List Event × Bool) :
+    (∃ r, optimize o nTimes goals pathGoals loop = .ok r) ↔
+      validateAll o nTimes goals pathGoals = none := by
+  unfold optimize
+  cases validateAll o nTimes goals pathGoals <;> simp
+
+/-- a concrete well-formed goal (x ≥ 2 wanted, range (-10, 10)) and ill-formed variants -/
+example : validate {} true 3
+    [{ fk := "k", tmin := .scalar (.fin 2), rangeLo := [.fin (-10)], rangeHi := [.fin 10],
+       rangeDefault := false }] = none := by decide
+example : validate {} true 3
+    [{ fk := "k", tmin := .scalar (.fin (-10)), rangeLo := [.fin (-10)], rangeHi := [.fin 10],
+       rangeDefault := false }] = some .tminLeLb := by decide
+example : validate {} true 3 [{ fk := "k", nominal := [0] }] = some .nominal := by decide
+example : validate {} true 2
+    [{ fk := "k", priority := 2, tmin := .scalar (.fin 1), rangeLo := [.fin (-10)],
+       rangeHi := [.fin 10], rangeDefault := false },
+     { fk := "k", priority := 1, tmin := .scalar (.fin 2), rangeLo := [.fin (-10)],
+       rangeHi := [.fin 10], rangeDefault := false }]
+    = some .monoMin := by decide
+
+/-! ## critical goals -/
+
+/-- the hard interval of a critical goal at a step with finite targets lies inside
+    `[(m_t - relaxation)/nom - cr, (M_t + relaxation)/nom + cr]`; in particular inside
+    `[m_t/nom, M_t/nom]` when no relaxation is configured — also after equality folding. -/
+theorem C04_critical_interval (o : HOpts) (g : Goal) (eps : Rat) (i : Nat) (tm tM : Rat)
+    (hcrit : g.critical = true) (hmin : g.hasMin = true) (hmax : g.hasMax = true)
+    (htm : g.mAt 0 i = XVal.e (EVal.fin tm)) (htM : g.MAt 0 i = XVal.e (EVal.fin tM))
+    (hle : tm ≤ tM) (hnom : 0 < g.nomAt 0) (hrel : 0 ≤ g.relaxation)
+    (hcr : 0 ≤ o.constraintRelaxation) :
+    (hardTargetStep o g eps i).sub
+        ⟨EVal.fin ((tm - g.relaxation) / g.nomAt 0 - o.constraintRelaxation),
+         EVal.fin ((tM + g.relaxation) / g.nomAt 0 + o.constraintRelaxation)⟩
+      ∧ (hardTargetStep o g eps i).ok := by
+  have hab : (tm - g.relaxation) / g.nomAt 0 ≤ (tM + g.relaxation) / g.nomAt 0 := by
+    apply div_le_div_of_nonneg_right _ (le_of_lt hnom)
+    linarith
+  have hlo : targetLo g eps i = EVal.fin ((tm - g.relaxation) / g.nomAt 0) := by
+    simp [targetLo, hcrit, hmin, htm, finOr]
+  have hhi : targetHi g eps i = EVal.fin ((tM + g.relaxation) / g.nomAt 0) := by
+    simp [targetHi, hcrit, hmax, htM, finOr]
+  simp only [hardTargetStep, hlo, hhi, foldEq]
+  split
+  · simp only [subFin, addFin, Ivl.sub, Ivl.ok, EVal.le_fin_fin]
+    refine ⟨⟨?_, ?_⟩, ?_⟩ <;> linarith
+  · simp only [subFin, addFin, Ivl.sub, Ivl.ok, EVal.le_fin_fin]
+    refine ⟨⟨?_, ?_⟩, ?_⟩ <;> linarith
+
+/-- one-sided critical goals (only `target_min`, or only `target_max`, finite at this step) -/
+theorem C04_critical_interval_min (o : HOpts) (g : Goal) (eps : Rat) (i : Nat) (tm : Rat)
+    (hcrit : g.critical = true) (hmin : g.hasMin = true)
+    (htm : g.mAt 0 i = XVal.e (EVal.fin tm)) (hM : (g.hasMax && (g.MAt 0 i).isFinite) = false) :
+    hardTargetStep o g eps i =
+      ⟨EVal.fin ((tm - g.relaxation) / g.nomAt 0 - o.constraintRelaxation), EVal.pinf⟩ := by
+  have hlo : targetLo g eps i = EVal.fin ((tm - g.relaxation) / g.nomAt 0) := by
+    simp [targetLo, hcrit, hmin, htm, finOr]
+  have hhi : targetHi g eps i = EVal.pinf := by
+    unfold targetHi
+    cases hh : g.hasMax with
+    | false => simp
+    | true =>
+      simp only [hh, Bool.true_and] at hM
+      cases hv : g.MAt 0 i with
+      | nan => simp [finOr]
+      | e x => cases x with
+        | fin q => simp [hv, XVal.isFinite] at hM
+        | ninf => simp [finOr]
+        | pinf => simp [finOr]
+  simp [hardTargetStep, hlo, hhi, foldEq, subFin, addFin]
+
+theorem C04_critical_interval_max (o : HOpts) (g : Goal) (eps : Rat) (i : Nat) (tM : Rat)
+    (hcrit : g.critical = true) (hmax : g.hasMax = true)
+    (htM : g.MAt 0 i = XVal.e (EVal.fin tM)) (hm : (g.hasMin && (g.mAt 0 i).isFinite) = false) :
+    hardTargetStep o g eps i =
+      ⟨EVal.ninf, EVal.fin ((tM + g.relaxation) / g.nomAt 0 + o.constraintRelaxation)⟩ := by
+  have hhi : targetHi g eps i = EVal.fin ((tM + g.relaxation) / g.nomAt 0) := by
+    simp [targetHi, hcrit, hmax, htM, finOr]
+  have hlo : targetLo g eps i = EVal.ninf := by
+    unfold targetLo
+    cases hh : g.hasMin with
+    | false => simp
+    | true =>
+      simp only [hh, Bool.true_and] at hm
+      cases hv : g.mAt 0 i with
+      | nan => simp [finOr]
+      | e x => cases x with
+        | fin q => simp [hv, XVal.isFinite] at hm
+        | ninf => simp [finOr]
+        | pinf => simp [finOr]
+  simp [hardTargetStep, hlo, hhi, foldEq, subFin, addFin]
+
+/-- **Critical goals are hard.**  Once a critical goal's interval `crit` has been put into the
+    store — into an empty slot, or merged (`enforce="self"`) with an existing entry that shares a
+    point with it — the entry of that function key stays inside `crit` under every later sequence
+    of store operations (soft-to-hard conversions of later goals, further critical goals); hence
+    every later solver answer, which satisfies the store's rows, meets the goal exactly. -/
+theorem C04_critical_hard (existing : Option EIvl) (crit : EIvl) (hc : crit.ok)
+    (hex : ∀ s, existing = some s → ∃ x, Ivl.mem x s ∧ Ivl.mem x crit)
+    (ops : List (EIvl × Bool)) (x : EVal)
+    (hx : Ivl.mem x (applyOps (critEntry existing crit) ops)) : Ivl.mem x crit := by
+  obtain ⟨h1, h2⟩ := critEntry_sub existing crit hc hex
+  exact Ivl.mem_of_sub h1 (Ivl.mem_of_sub (applyOps_sub ops _ h2).1 hx)
+
+/-- end to end for a two-sided critical goal without relaxations: a later solution's scaled
+    function value `x` in the store entry satisfies `m_t ≤ x·nom ≤ M_t`. -/
+theorem C04_critical_met (o : HOpts) (g : Goal) (i : Nat) (tm tM : Rat)
+    (hcrit : g.critical = true) (hmin : g.hasMin = true) (hmax : g.hasMax = true)
+    (htm : g.mAt 0 i = XVal.e (EVal.fin tm)) (htM : g.MAt 0 i = XVal.e (EVal.fin tM))
+    (hle : tm ≤ tM) (hnom : 0 < g.nomAt 0) (hrel : g.relaxation = 0) (hcr : o.constraintRelaxation = 0)
+    (existing : Option EIvl)
+    (hex : ∀ s, existing = some s → ∃ x, Ivl.mem x s ∧ Ivl.mem x (hardTargetStep o g 0 i))
+    (ops : List (EIvl × Bool)) (x : Rat)
+    (hx : Ivl.mem (EVal.fin x) (applyOps (critEntry existing (hardTargetStep o g 0 i)) ops)) :
+    tm ≤ x * g.nomAt 0 ∧ x * g.nomAt 0 ≤ tM := by
+  obtain ⟨hsub, hok⟩ := C04_critical_interval o g 0 i tm tM hcrit hmin hmax htm htM hle hnom (by rw [hrel]) (by rw [hcr])
+  have hm := Ivl.mem_of_sub hsub (C04_critical_hard existing _ hok hex ops _ hx)
+  simp only [Ivl.mem, hrel, hcr, sub_zero, add_zero, EVal.le_fin_fin] at hm
+  obtain ⟨h1, h2⟩ := hm
+  constructor
+  · have := (div_le_iff₀ hnom).1 h1
+    linarith
+  · have := (le_div_iff₀ hnom).1 h2
+    linarith
+
+/-- **F27 (known finding): the intersection hypothesis of `C04_critical_hard` is needed.**  An
+    earlier retained bound `x ≤ 5` merged with a critical `x ≥ 6` gives the entry `[5, 5]`: the
+    critical goal is not met and nothing fails. -/
+theorem C04_critical_disjoint_witness :
+    critEntry (some (⟨EVal.ninf, EVal.fin 5⟩ : EIvl)) ⟨EVal.fin 6, EVal.pinf⟩ = ⟨EVal.fin 5, EVal.fin 5⟩
+      ∧ ¬ Ivl.mem (EVal.fin 5) (⟨EVal.fin 6, EVal.pinf⟩ : EIvl) := by
+  constructor
+  · decide
+  · simp [Ivl.mem]
+    norm_num
+
+/-- non-vacuity: store `[2, inf)` (an earlier goal x ≥ 2), critical `(-inf, 8]`, then a later
+    soft-to-hard conversion `[0, 3]`: the entry ends as `[2, 3] ⊆ (-inf, 8]` -/
+example : applyOps (critEntry (some (⟨EVal.fin 2, EVal.pinf⟩ : EIvl)) ⟨EVal.ninf, EVal.fin 8⟩)
+    [(⟨EVal.fin 0, EVal.fin 3⟩, false)] = ⟨EVal.fin 2, EVal.fin 3⟩ := by decide
+
 end RtcVerif.C04
